@@ -47,6 +47,13 @@ def run_check(prop, tier="quick"):
 
 def main():
     only = sys.argv[sys.argv.index("--only") + 1] if "--only" in sys.argv else None
+    # --shard k/n: this process takes every n-th entry (mutants and benign variants alike), starting
+    # with the k-th; n processes with k = 0..n-1 cover everything, each with its own scratch root,
+    # and merge their results into mutants/RESULTS.json under a file lock
+    shard = None
+    if "--shard" in sys.argv:
+        k, n = sys.argv[sys.argv.index("--shard") + 1].split("/")
+        shard = (int(k), int(n))
     suite = "--suite" in sys.argv
     os.makedirs(ROOT, exist_ok=True)
     sh("git -C /repo worktree remove --force %s" % WT)
@@ -57,8 +64,10 @@ def main():
     ok = True
     try:
         if "--benign-only" not in sys.argv:
-            for m in MUTANTS:
+            for mi, m in enumerate(MUTANTS):
                 if only and only not in m["id"]:
+                    continue
+                if shard and mi % shard[1] != shard[0]:
                     continue
                 err = apply(m)
                 if err:
@@ -77,8 +86,10 @@ def main():
                 print("%-44s  %s  exit=%s  %s  %s" % (m["id"], "CAUGHT" if good else "MISSED", rc, r.get("baseline_suite", ""), sig[:110]), flush=True)
         if "--mutants-only" not in sys.argv:
             props = [c["property_id"] for c in json.load(open(os.path.join(VERIF, "MANIFEST.json")))["checks"]]
-            for m in BENIGN:
+            for mi, m in enumerate(BENIGN):
                 if only and only not in m["id"]:
+                    continue
+                if shard and mi % shard[1] != shard[0]:
                     continue
                 err = apply(m)
                 if err:
@@ -98,13 +109,15 @@ def main():
             sh("git -C /repo worktree remove --force %s" % WT)
             shutil.rmtree(ROOT, ignore_errors=True)
     out = os.path.join("/verif", "mutants", "RESULTS.json")  # live /verif, also when run from a vp snapshot
-    prev = {}
-    if os.path.exists(out) and only:
-        prev = json.load(open(out))
-        for k in ("mutants", "benign"):
-            prev.setdefault(k, {}).update(results[k])
-        results = prev
-    json.dump(results, open(out, "w"), indent=1)
+    import fcntl
+    with open(out + ".lock", "w") as lk:
+        fcntl.flock(lk, fcntl.LOCK_EX)
+        if os.path.exists(out) and (only or shard):
+            prev = json.load(open(out))
+            for k in ("mutants", "benign"):
+                prev.setdefault(k, {}).update(results[k])
+            results = prev
+        json.dump(results, open(out, "w"), indent=1)
     sys.exit(0 if ok else 1)
 
 if __name__ == "__main__":
